@@ -243,6 +243,7 @@ _STACKS = {
         ('stacks', 'tonic/src/transport/service/grpc_timeout.rs', r'(pub\(crate\) fn new\(inner: S, server_timeout: Option<Duration>\) -> Self \{\s*Self \{\s*inner,\s*)server_timeout,', r'\1server_timeout: None,', 'GrpcTimeout::new forgets the configured timeout'),
     ],
     'C14': [
+        ('reconnect', 'tonic/src/transport/channel/endpoint.rs', r'connector\.set_connect_timeout\(Some\(connect_timeout\)\);', 'connector.set_connect_timeout(None);', 'the configured connect timeout is not applied to a user connector: a stuck connection attempt is unbounded'),
         ('stacks', _CN, r'endpoint\.uri\(\)\.clone\(\), is_lazy\)', 'endpoint.uri().clone(), true)', 'every channel is lazy: an eager connect cannot report its first failure'),
         ('stacks', _AO, r'if self\.scheme\.is_none\(\) \|\| self\.authority\.is_none\(\) \{', 'if self.scheme.is_none() && self.authority.is_none() {', 'an origin without authority reaches Uri::from_parts(..).expect and panics'),
         ('stacks', _CH, r'let inner = Service::call\(&mut self\.svc, request\);', 'let inner = Service::call(&mut self.svc, http::Request::new(request.into_body()));', 'the channel hands the connection another request than the one it was given'),
